@@ -1,2 +1,4 @@
 import NloptModel.Model.F64
 import NloptModel.Lemmas.F64Order
+import NloptModel.Model.Api
+import NloptModel.Model.ApiDriver
